@@ -226,6 +226,30 @@ theorem measureGate_in_circuit [Semiring R] [StarRing R] (pre rest : List (Op n 
   simp only [measureRecords, List.singleton_append, Op.applyA, Op.apply]
   rw [C03.applyStateA_eq pre hpre]
 
+/-! ### the executed carrier -/
+
+/-- **what the driver computes**: the vector `prob` evaluated with the model's own `ℚ[i]` operations and conjugation
+(`QI.instAdd … QI.instConj`) is the Born marginal.  `QI` is a commutative star ring on those very operations
+(`NumqiProofs/ScalarInstances.lean`), so this is `prob_eq_born` at `R = QI`. -/
+theorem prob_eq_born_QI (s : Fin m → Fin n) (ψ : Vec n QI) (o : Bits m) :
+    @reduceToProbability QI n m QI.instAdd QI.instMul QI.instZero QI.instConj s ψ o
+      = ∑ x ∈ Finset.univ.filter (fun x : Bits n => x.sel s = o), star (ψ x) * ψ x :=
+  prob_eq_born s ψ o
+
+/-- … and it is non-negative in the order of `ℚ[i]` restricted to its real part: the real part is a sum of squares -/
+theorem prob_re_nonneg_QI (s : Fin m → Fin n) (ψ : Vec n QI) (o : Bits m) :
+    0 ≤ (@reduceToProbability QI n m QI.instAdd QI.instMul QI.instZero QI.instConj s ψ o).re := by
+  rw [prob_eq_born_QI]
+  have hre : ∀ (S : Finset (Bits n)) (f : Bits n → QI), (∑ x ∈ S, f x).re = ∑ x ∈ S, (f x).re := by
+    intro S f
+    induction S using Finset.induction_on with
+    | empty => simp
+    | insert a S ha ih => rw [Finset.sum_insert ha, Finset.sum_insert ha, QI.add_re, ih]
+  rw [hre]
+  refine Finset.sum_nonneg (fun x _ => ?_)
+  simp only [QI.mul_re, star, QI.conj_re, QI.conj_im]
+  nlinarith [mul_self_nonneg (ψ x).re, mul_self_nonneg (ψ x).im]
+
 /-! ### the hypotheses are satisfiable, the statements are not vacuous -/
 
 /-- the model computes: marginal of qubit 1 of the (un-normalised) state (1,2,0,3): outcome 0 ↦ 1²+0², outcome 1 ↦ 2²+3² -/
